@@ -1,3 +1,4 @@
+import RedoModel.Props.C17c
 import RedoModel.Props.C17a
 import RedoModel.Props.C17b
 /-! # C17 — the property theorems are in `C17a.lean` (classification, read-only) and `C17b.lean`
